@@ -247,6 +247,8 @@ func (it *Interp) intrinsic(name string, fn *ssa.Function, a []Val) Val {
 		switch o := it.cstr(a[0], "option"); o {
 		case "exact-decimal":
 			it.ex.cfg.ExactDecimal = true
+		case "structured-keys":
+			it.ex.cfg.StructuredKeys = true
 		case "no-injective-sprintf":
 			it.ex.cfg.InjectiveSprintf = false
 		default:
